@@ -481,6 +481,16 @@ parser on generated documents) accepts only declarations of the grammar, with th
 theorem strict_reader_sound (buf : Cps) (enc : Option Cps) (rest : Cps) (h : parseXmlDecl buf = some (enc, rest)) :
     ∃ d, buf = d ++ rest ∧ XMLDecl d enc := parseXmlDecl_sound buf enc rest h
 
+/-- … and every declaration of the grammar, followed by anything, is read back: the reader decides the grammar -/
+theorem strict_reader_complete (d : Cps) (enc : Option Cps) (rest : Cps) (hd : XMLDecl d enc) :
+    parseXmlDecl (d ++ rest) = some (enc, rest) := parseXmlDecl_complete d enc rest hd
+
+/-- the strict reading in one statement: the reader answers `(enc, rest)` exactly when the text is a declaration of
+the XML 1.0 grammar with that EncName followed by `rest` -/
+theorem strict_reader_iff (buf : Cps) (enc : Option Cps) (rest : Cps) :
+    parseXmlDecl buf = some (enc, rest) ↔ ∃ d, buf = d ++ rest ∧ XMLDecl d enc :=
+  ⟨parseXmlDecl_sound buf enc rest, fun ⟨d, hb, hd⟩ => hb ▸ parseXmlDecl_complete d enc rest hd⟩
+
 /-- whatever the strict reader accepts within the window, the sniffer of the code reads the same way -/
 theorem strict_reader_agrees (buf : Cps) (enc : Option Cps) (rest : Cps) (incl : Bool)
     (h : parseXmlDecl buf = some (enc, rest)) (hfit : buf.length - rest.length ≤ 2048) :
